@@ -54,8 +54,8 @@ func isGroupGo(i ssa.Instruction) (*ssa.Function, bool) {
 		return nil, false
 	}
 	if len(ci.Common().Args) > 1 {
-		if mc, ok := ci.Common().Args[1].(*ssa.MakeClosure); ok {
-			return mc.Fn.(*ssa.Function), true
+		if f := callbackFunction(ci.Common().Args[1]); f != nil {
+			return f, true
 		}
 	}
 	return nil, true
@@ -193,12 +193,21 @@ func checkC10(c *Ctx, r *Report) {
 	c.checkConnectWatcher(r)
 	// R3: shared with C19-R3 / C18-R1
 	n3 := 0
+	timedCtor := c.SSA[pkTrans].Func("NewTimedTransaction")
+	var timedCb *ssa.Function
+	if timedCtor != nil {
+		allInstrs(timedCtor, func(i ssa.Instruction) {
+			if ci, ok := i.(ssa.CallInstruction); ok && calleeName(ci.Common()) == "time.AfterFunc" {
+				timedCb = callbackFunction(ci.Common().Args[1])
+			}
+		})
+	}
 	for _, fn := range c.repoFuncs("transactions") {
-		if fn.Parent() == nil {
+		if fn != timedCb {
 			continue
 		}
 		// timer callback of NewTimedTransaction
-		if p := fn.Parent(); p != nil && p.Name() == "NewTimedTransaction" {
+		if p := timedCtor; p != nil {
 			okc := false
 			allInstrs(fn, func(i ssa.Instruction) {
 				if ci, ok := i.(ssa.CallInstruction); ok {
@@ -214,7 +223,7 @@ func checkC10(c *Ctx, r *Report) {
 			isTimer := false
 			allInstrs(p, func(i ssa.Instruction) {
 				if ci, ok := i.(ssa.CallInstruction); ok && calleeName(ci.Common()) == "time.AfterFunc" {
-					if mc, ok := ci.Common().Args[1].(*ssa.MakeClosure); ok && mc.Fn == fn {
+					if callbackFunction(ci.Common().Args[1]) == fn {
 						isTimer = true
 						// duration is the constructor's timeout parameter
 						if prm, ok := ci.Common().Args[0].(*ssa.Parameter); !ok || prm.Parent() != p {
@@ -714,14 +723,23 @@ func checkC13(c *Ctx, r *Report) {
 			r.undecided("R4", "state<-Disconnected", "-", "no place sets the session state to Disconnected")
 		}
 		var shutdown *ssa.Function
+		cands := closuresIn(run)
 		for _, cl := range closuresIn(run) {
-			getsState := false
+			if t := forwardTarget(cl); t != cl {
+				cands = append(cands, t)
+			}
+		}
+		for _, cl := range cands {
+			getsState, waitsCtx := false, false
 			allInstrs(cl, func(i ssa.Instruction) {
 				if ci, ok := i.(ssa.CallInstruction); ok && calleeName(ci.Common()) == "(*"+pkUtil+".ClientState).Get" {
 					getsState = true
 				}
+				if u, ok := i.(*ssa.UnOp); ok && u.Op == token.ARROW && c.isContextDone(u.X) {
+					waitsCtx = true
+				}
 			})
-			if getsState {
+			if getsState && waitsCtx {
 				shutdown = cl
 			}
 		}
